@@ -260,14 +260,14 @@ def check_tag(tag):
 
     if not tag.position:
         errors.append(ValidationError.NoPosition)
+    if tag.extent and len(tag.extent) != len(tag.position):
+        errors.append(ValidationError.PositionExtentMismatch)
     if tag.references:
         posdim = len(tag.position)
         if any(posdim != len(da.shape) for da in tag.references):
             errors.append(ValidationError.PositionDimensionMismatch)
         if tag.extent:
             extlen = len(tag.extent)
-            if extlen != posdim:
-                errors.append(ValidationError.PositionExtentMismatch)
             if any(extlen != len(da.shape) for da in tag.references):
                 errors.append(ValidationError.ExtentDimensionMismatch)
 
@@ -306,6 +306,8 @@ def check_multi_tag(mtag):
 
     if not mtag.positions:
         errors.append(ValidationError.NoPositions)
+    if mtag.extents and mtag.positions.shape != mtag.extents.shape:
+        errors.append(ValidationError.PositionsExtentsMismatch)
     if mtag.references:
         if len(mtag.positions.shape) == 1:
             posdim = 1
@@ -315,8 +317,6 @@ def check_multi_tag(mtag):
         if any(posdim != len(da.shape) for da in mtag.references):
             errors.append(ValidationError.PositionsDimensionMismatch)
         if mtag.extents:
-            if mtag.positions.shape != mtag.extents.shape:
-                errors.append(ValidationError.PositionsExtentsMismatch)
             if len(mtag.extents.shape) == 1:
                 extdim = 1
             else:
